@@ -80,7 +80,7 @@ def build(work):
     return os.path.join(work, "target", "release", "gv")
 
 
-def run_streams(gv, work, group, streams, seeds, tier, only):
+def run_streams(gv, work, group, streams, seeds, tier, only, no_corpus=False):
     for sub, extra in streams:
         tag = sub + ("-" + extra[0].strip("-") if extra and not extra[0].startswith("--") else "")
         if only and sub not in only:
@@ -92,6 +92,12 @@ def run_streams(gv, work, group, streams, seeds, tier, only):
             os.makedirs(prof, exist_ok=True)
             env = dict(os.environ, GV_SCRATCH=os.path.join(work, "scratch"), GV_VERIF=VERIF, GV_REPO=REPO,
                        LLVM_PROFILE_FILE=os.path.join(prof, f"{tag}-{tier}-{seed}-%p-%m.profraw"))
+            if no_corpus:
+                # the harness reads the repository's test programs under GV_REPO and the witnesses under GV_VERIF at run
+                # time only: pointed at an empty directory, every stream runs its GENERATED programs alone
+                empty = os.path.join(work, "empty")
+                os.makedirs(empty, exist_ok=True)
+                env.update(GV_VERIF=empty, GV_REPO=empty)
             t0 = time.time()
             try:
                 p = sh([gv, sub, "--seed", str(seed), "--tier", tier, "--out", out] + extra, env=env, timeout=7200)
@@ -340,6 +346,7 @@ def main():
     ap.add_argument("--report", default="")
     ap.add_argument("--list-unclassified", action="store_true")
     ap.add_argument("--probe", nargs="+", help="compile these .gom files with the instrumented pipeline; print which uncovered entries of the last report they execute")
+    ap.add_argument("--gen-only", action="store_true", help="also run the accept streams WITHOUT the fixed corpus programs and list what only the corpus reaches")
     ap.add_argument("--source-root", default="", help="read the source text from this checkout (when GV_REPO has moved on since the profiles were taken)")
     ap.add_argument("--tsv", default="", help="also write the uncovered arms as TSV (for editing coverage_classes.tsv)")
     a = ap.parse_args()
@@ -360,6 +367,8 @@ def main():
         run_streams(gv, work, "reject", REJECT, seeds[:1], "quick", only)
         if tseeds:
             run_streams(gv, work, "accept", ACCEPT, tseeds, "thorough", only)
+        if a.gen_only:
+            run_streams(gv, work, "genonly", ACCEPT, seeds, "quick", only, no_corpus=True)
     acc, acc_segs = region_counts(merge_and_export(tools, gv, work, "accept", ["accept"]))
     have_reject = bool(glob.glob(os.path.join(work, "prof", "reject", "*.profraw")))
     allr, all_segs = region_counts(merge_and_export(tools, gv, work, "all", ["accept", "reject"])) if have_reject else (acc, acc_segs)
@@ -418,6 +427,38 @@ def main():
         for short, kind, l0, l1, fn, text, c, note, seen in sel:
             span = f"{l0}" if l0 == l1 else f"{l0}-{l1}"
             P(f"{short}:{span}\t{kind}\t{fn}\t{'+R' if seen else '  '}\t{text}" + (f"\t# {note}" if note else ""))
+    if glob.glob(os.path.join(work, "prof", "genonly", "*.profraw")):
+        gen, gen_segs = region_counts(merge_and_export(tools, gv, work, "genonly", ["genonly"]))
+        P("")
+        P("## executed by the fixed corpus programs only (repository test programs, corpus/ witnesses): no GENERATED program of")
+        P("## any accept stream reaches these lines, so each is exercised in the one context its corpus program happens to have")
+        tot_only = 0
+        for f in FILES:
+            lines = open(os.path.join(a.source_root or REPO, f), encoding="utf-8").read().split("\n")
+            lc = line_counts(acc_segs.get(f, []), len(lines))
+            lg = line_counts(gen_segs.get(f, []), len(lines))
+            only_corpus = [l for l, c in sorted(lc.items()) if c > 0 and lg.get(l, 0) == 0]
+            tot_only += len(only_corpus)
+            short = short_name(f)
+            fn_of, cur = {}, "?"
+            for i, l in enumerate(lines, 1):
+                m = FN_RE.match(l)
+                if m:
+                    cur = m.group(1)
+                fn_of[i] = cur
+            # maximal runs of consecutive corpus-only lines
+            runs, run = [], []
+            for l in only_corpus:
+                if run and (l - run[-1] > 2 or fn_of[l] != fn_of[run[0]]):
+                    runs.append(run); run = []
+                run.append(l)
+            if run:
+                runs.append(run)
+            P(f"# {short}: {len(only_corpus)} of {sum(1 for c in lc.values() if c > 0)} executed lines, {len(runs)} runs")
+            for r in runs:
+                span = f"{r[0]}" if r[0] == r[-1] else f"{r[0]}-{r[-1]}"
+                P(f"{short}:{span}\tcorpus-only\t{fn_of[r[0]]}\t{norm(lines[r[0] - 1])[:110]}")
+        P(f"# total: {tot_only} executed lines are reached by corpus programs only")
     text = "\n".join(out) + "\n"
     if a.report:
         open(a.report, "w").write(text)
